@@ -1,7 +1,7 @@
 INIT GenInit
 NEXT GenNext
 CONSTANTS
-  Alphabet = {48, 97, 126, 46}
+  Alphabet = {48, 97, 126, 45, 58}
   MaxLen = 2
   Mode = "cmp"
 CHECK_DEADLOCK FALSE
